@@ -1,4 +1,4 @@
-import FluteModel.Lemmas.SchedCarousel
+import FluteModel.Lemmas.SchedPaced
 /-
   C12 - Transfer lifecycle.  All theorems quantify over every configuration, every FDT table and EVERY
   operation history (add / publish / remove / trigger / read / set_complete with arbitrary times).
@@ -90,7 +90,7 @@ theorem exact_transfer_count (cfg : Cfg) (tbl : List Nat) (ops : List Op) (toi :
 
 /-- EVENTUALLY, for a sender whose objects are not paced, polled at ONE instant: let the sender be in any reachable
     state in which no object has a target duration / deadline (`Unpaced.all`: pacing is the only thing that makes the
-    sender wait inside an instant), `0 < fdt_duration`, and let object `toi` be without carousel, published
+    sender wait inside an instant), and let object `toi` be without carousel, published
     (FullFDT) and past its start time at `N`, its priority queue configured.  Then among ANY
     `mu N + max(1, max_transfer_count)` consecutive calls `read(N)` (any tick inputs) the object has left the sender
     before one of them (`AllIn`: "in the sender before every call of the sequence and after the last" is false) -
@@ -100,12 +100,32 @@ theorem exact_transfer_count (cfg : Cfg) (tbl : List Nat) (ops : List Op) (toi :
     closed) and releases it, so its transfer counter grows with every such call, and it is bounded by the count.
     PACED objects / several instants: the due instants depend on the per-transfer ticks; for them the liveness is the
     step form below (`exact_transfer_count_liveness_step_partial`). -/
-theorem exact_transfer_count_eventually (cfg : Cfg) (tbl : List Nat) (hdur : 0 < cfg.fdtDuration)
+theorem exact_transfer_count_eventually (cfg : Cfg) (tbl : List Nat)
     (hsorted : (cfg.queues.map (fun x => x.1)).Pairwise (fun a b => a < b)) (ops : List Op) (toi N : Nat)
     (f : FileDesc) (hu : Unpaced (run (init cfg tbl) ops) toi N f) (hprio : f.prio ∈ cfg.queues.map (fun x => x.1))
     (tks : List (List (Nat × Nat))) (hlen : mu N tbl (run (init cfg tbl) ops) + burstF f ≤ tks.length) :
     ¬ AllIn toi N (run (init cfg tbl) ops) tks :=
-  leaves_within cfg tbl hdur hsorted ops toi N f hu hprio tks hlen
+  leaves_within cfg tbl hsorted ops toi N f hu hprio tks hlen
+
+/-- LIVENESS FOR PACED SENDERS OVER SEVERAL INSTANTS (trace form of the step theorem, under "the clock eventually
+    passes every pacing gate"): after every history (buffer sources), let object `toi` be without carousel and
+    published (FullFDT), and consider ANY further sequence of polls `rs` - arbitrary instants (they need not even be
+    monotone), arbitrary tick inputs, any number of polls per instant.  Call a poll of the sequence GOOD when it
+    returns `None` although, at its instant, every pacing gate of the sender is open (`gatesOpen`: the clock has
+    passed every `next_transfer_timestamp`) and the object's start time has been reached (`goodNones` counts them).
+    Then, as long as the object stays in the sender (`AllInSeq`), fewer than `max(1, max_transfer_count)` good polls
+    occur: EVERY good poll finds the object's transfer finished in a slot and releases it (its transfer counter
+    grows) - it cannot be waiting (`strict_priority`) nor pacing.  Since polling an instant reaches `None`
+    (`read_terminates`), a caller that keeps polling instants past the due times the sender computed makes good polls,
+    and after at most `max(1, max_transfer_count)` of them the object has completed all its transfers and is gone
+    (`exact_transfer_count`).  Paced PEERS are covered: a gate that is still closed at a `None` poll simply makes
+    that poll not good. -/
+theorem exact_transfer_count_paced_liveness (cfg : Cfg) (tbl : List Nat)
+    (hsorted : (cfg.queues.map (fun x => x.1)).Pairwise (fun a b => a < b)) (ops : List Op) (toi : Nat) (f : FileDesc)
+    (hu : Tracked (run (init cfg tbl) ops) toi f) (hprio : f.prio ∈ cfg.queues.map (fun x => x.1))
+    (rs : List (Nat × List (Nat × Nat))) (hall : AllInSeq toi (run (init cfg tbl) ops) rs) :
+    goodNones f (run (init cfg tbl) ops) rs < burstF f :=
+  good_nones_bounded cfg tbl hsorted ops toi f hu hprio rs hall
 
 /-- Liveness step for `exact_transfer_count_partial` (the "at least" half, contrapositive form), after every
     operation history: if an object WITHOUT carousel is still in the sender and `read(now)` returns `None`, then the
@@ -213,7 +233,7 @@ theorem carousel_until_removed (cfg : Cfg) (tbl : List Nat) (ops : List Op) (toi
     · right; unfold isTransferring; rw [hf]; exact h
 
 /-- A carousel object IS retransmitted (`carousel_until_removed`, liveness; equally: any waiting object gets its next
-    transfer): for a sender whose objects are not paced and `0 < fdt_duration`, let object `toi` be WAITING in any
+    transfer): for a sender whose objects are not paced, let object `toi` be WAITING in any
     reachable state, published (FullFDT), past its start time at `N`, its queue configured, and allowed to transfer
     at `N` by `should_transfer_now` (`max_transfer_count > transfer_count`, or the carousel gap test passes:
     `now - previous end > delay` resp. `now - previous start > interval`).  Then in ANY `mu N + 1` consecutive calls
@@ -223,13 +243,13 @@ theorem carousel_until_removed (cfg : Cfg) (tbl : List Nat) (ops : List Op) (toi
     (`carousel_until_removed`), and the gap test passes once the caller polls an instant past the gap - it gives the
     k-th transfer start for every k as long as the object is not removed.  (The induction over k and the instants
     is not stated; PACED senders: step form `carousel_liveness_step_partial`.) -/
-theorem waiting_object_starts (cfg : Cfg) (tbl : List Nat) (hdur : 0 < cfg.fdtDuration)
+theorem waiting_object_starts (cfg : Cfg) (tbl : List Nat)
     (hsorted : (cfg.queues.map (fun x => x.1)).Pairwise (fun a b => a < b)) (ops : List Op) (toi N : Nat)
     (f : FileDesc) (he : WaitsEligible (run (init cfg tbl) ops) toi N f)
     (hprio : f.prio ∈ cfg.queues.map (fun x => x.1))
     (tks : List (List (Nat × Nat))) (hlen : mu N tbl (run (init cfg tbl) ops) + 1 ≤ tks.length) :
     ¬ CleanSeq toi N (run (init cfg tbl) ops) tks :=
-  starts_within cfg tbl hdur hsorted ops toi N f he hprio tks hlen
+  starts_within cfg tbl hsorted ops toi N f he hprio tks hlen
 
 /-- Liveness step for `carousel_until_removed` ("is retransmitted"): if a carousel object is still in the sender and
     `read(now)` returns `None`, the object waits for an explicit reason: not published (FullFDT), start time in the
@@ -400,7 +420,8 @@ theorem later_publications_exclude (cfg : Cfg) (tbl : List Nat) (ops : List Op) 
   have h := checked_at post (Ev.pub now k files) pre (hs ▸ lifecycle_checked cfg tbl ops toi)
   exact h hin
 
-/-- Reads terminate, with an explicit decreasing measure.  For `0 < fdt_duration`, after EVERY operation history and
+/-- Reads terminate, with an explicit decreasing measure.  For EVERY `fdt_duration` (also 0: since the repair of F24
+    `current_fdt_will_expire` does not republish at the very instant of a publication), after EVERY operation history and
     for EVERY sequence of reads at one fixed instant `N` (any tick tables), the number of reads that return something
     (object or FDT packet) is at most `mu N tbl s` (`Lemmas/SchedMeasure*.lean`):
       `phiA` = per object in a slot: packets left in its transfer + `nPk` x the transfers it can still start at `N`
@@ -413,16 +434,16 @@ theorem later_publications_exclude (cfg : Cfg) (tbl : List Nat) (ops : List Op) 
     Proof: `phiA + #object packets` and `phiB + #FDT packets` are invariant upper bounds along reads at `N`
     (every primitive transition of `read` shown once), and every non-empty `read` appends exactly one packet entry
     (`read_returns_newest_entry`). -/
-theorem read_terminates (cfg : Cfg) (tbl : List Nat) (hdur : 0 < cfg.fdtDuration) (ops : List Op) (N : Nat)
+theorem read_terminates (cfg : Cfg) (tbl : List Nat) (ops : List Op) (N : Nat)
     (tks : List (List (Nat × Nat))) :
     busyReads N (run (init cfg tbl) ops) tks ≤ mu N tbl (run (init cfg tbl) ops) :=
-  busy_reads_bounded cfg tbl hdur ops N tks
+  busy_reads_bounded cfg tbl ops N tks
 
 /-- ... hence: polling at a fixed instant, `None` is returned after at most `mu` packets -/
-theorem read_returns_none_within_mu (cfg : Cfg) (tbl : List Nat) (hdur : 0 < cfg.fdtDuration) (ops : List Op) (N : Nat)
+theorem read_returns_none_within_mu (cfg : Cfg) (tbl : List Nat) (ops : List Op) (N : Nat)
     (tk : List (Nat × Nat)) :
     ∃ k, k ≤ mu N tbl (run (init cfg tbl) ops) ∧ (reads (run (init cfg tbl) ops) N tk (k + 1)).2 = Out.none :=
-  reads_reach_none cfg tbl hdur ops N tk
+  reads_reach_none cfg tbl ops N tk
 
 /-- per call: the two `loop`s of `SenderSession::run` need at most two iterations; the model's fuel of 4 is never
     exhausted - for EVERY state, reachable or not -/
@@ -437,33 +458,31 @@ theorem read_never_hangs (s : State) (now : Nat) (ticks : List (Nat × Nat)) :
     is published if none is pending - and never an object packet.  A caller that polls ONCE per instant, with
     instants at least `fdt_duration` apart, makes every call under this condition: the objects are never started
     (`slowPoll` below: `fdt_duration` = 1 s, one call per second, zero StartTransfer; six calls at ONE instant
-    complete the transfer).  "Polled until `None`" in the liveness statements is therefore necessary;
-    `fdt_duration = 0` is the extreme case where even that cannot be met (`read_never_idle_fdt_duration_0`, F24). -/
+    complete the transfer).  "Polled until `None`" in the liveness statements is therefore necessary.
+    (`Expired` includes: not at the very instant of the last publication - there the repaired code does not
+    republish, which is what makes `read` terminate for `fdt_duration = 0`, former finding F24.) -/
 theorem poll_at_fdt_expiry_returns_fdt (cfg : Cfg) (tbl : List Nat) (ops : List Op) (hfit : cfg.fdtFits = true)
     (now : Nat) (ticks : List (Nat × Nat)) (hexp : Expired cfg (run (init cfg tbl) ops).lastPublish now) :
     ∃ k id i, (read (run (init cfg tbl) ops) now ticks).2 = Out.fdt k id i :=
   read_expired cfg tbl ops hfit now ticks hexp
 
-/-- F24, negation witness in general form: with `fdt_duration = 0` (FDT admitted) EVERY `read` after EVERY history
-    returns an FDT packet - repeated reads at a fixed instant never return `None`, whatever `n`, and no object
-    packet is ever sent. -/
-theorem read_never_idle_fdt_duration_0 (cfg : Cfg) (tbl : List Nat) (ops : List Op) (h0 : cfg.fdtDuration = 0)
-    (hfit : cfg.fdtFits = true) (now : Nat) (ticks : List (Nat × Nat)) (n : Nat) :
-    ∃ k id i, (reads (run (init cfg tbl) ops) now ticks (n + 1)).2 = Out.fdt k id i := by
-  have key : ∀ m, ∃ ops', (reads (run (init cfg tbl) ops) now ticks m).1 = run (init cfg tbl) ops' := by
-    intro m
-    induction m with
-    | zero => exact ⟨ops, rfl⟩
-    | succ m ih =>
-      obtain ⟨ops', e⟩ := ih
-      refine ⟨ops' ++ [.read now ticks], ?_⟩
-      show (read (reads (run (init cfg tbl) ops) now ticks m).1 now ticks).1 = _
-      rw [e]
-      unfold run; rw [List.foldl_append]; rfl
-  obtain ⟨ops', e⟩ := key n
-  show ∃ k id i, (read (reads (run (init cfg tbl) ops) now ticks n).1 now ticks).2 = _
-  rw [e]
-  exact read_zero_duration cfg tbl ops' h0 hfit now ticks
+/-- FDT-only starvation under real-time polling (finding sched-11), the per-call statement: after every history, a
+    `read(now)` returns an FDT packet - never an object packet - (1) while the FDT session holds an unfinished
+    transfer (its next packet), and (2) when the expiry test holds (`poll_at_fdt_expiry_returns_fdt`: a fresh instance
+    is published).  So when one instance has `n` packets and the application polls every `step`, with
+    `n * step ≥ fdt_duration - lead`: every call falls under (1) or (2) - during the `n` calls that send the instance
+    it is (1), and when its last packet is out `fdt_duration - lead` has elapsed since its publication: (2), a
+    successor is published, (1) again ... the objects never get a packet (generated: family `fdtstarve-*`;
+    `slowPoll` is the case `n = 1`). -/
+theorem fdt_first_while_busy_or_expired (cfg : Cfg) (tbl : List Nat) (ops : List Op) (hfit : cfg.fdtFits = true)
+    (now : Nat) (ticks : List (Nat × Nat))
+    (h : (∃ c f, (run (init cfg tbl) ops).fdtSess = some c ∧ getF (run (init cfg tbl) ops).fdts c.key = some f ∧
+            c.enc.sent < f.nPk) ∨
+         Expired cfg (run (init cfg tbl) ops).lastPublish now) :
+    ∃ k id i, (read (run (init cfg tbl) ops) now ticks).2 = Out.fdt k id i := by
+  rcases h with ⟨c, f, h1, h2, h3⟩ | h
+  · exact read_fdt_busy cfg tbl ops now ticks c f h1 h2 h3
+  · exact read_expired cfg tbl ops hfit now ticks h
 
 /-! non-vacuity: a 3-packet object sent twice, removed during the second transfer: one more packet with B -/
 def cfg1 : Cfg := { mode := .full, fdtCarousel := .delay 1000, fdtDuration := 3600000000000, fdtStartId := 1, queues := [(0, 1)] }
@@ -501,7 +520,7 @@ example : Expired cfgS (run (init cfgS []) (slowPoll.take 4)).lastPublish 300000
   intro lp h
   have : (run (init cfgS []) (slowPoll.take 4)).lastPublish = some 2000000000 := by decide
   rw [this] at h; cases h
-  decide
+  exact ⟨by decide, by decide⟩
 
 /-- non-vacuity of `exact_transfer_count_eventually`: the hypotheses hold for `obj3` (3 packets, 2 transfers) after
     add + publish; `mu` = 9 there (example above), so the object is gone within 11 calls - in fact after 9 -/
@@ -529,5 +548,15 @@ example : ∃ f, WaitsEligible (run (init cfg1 [1]) [.add obj3, .publish 5]) 1 5
     (fun st h => by rw [h4] at h; cases h) (fun k g h => hall g (getF_mem h))
     (faultfree_run cfg1 [1] [.add obj3, .publish 5] (by intro a ha; simp at ha; rw [ha]; rfl)), by rw [h5]; decide⟩
 example : (read (read (run (init cfg1 [1]) [.add obj3, .publish 5]) 5 []).1 5 []).1.log.any (badEv2 1) = true := by decide
+
+/-- non-vacuity of `exact_transfer_count_paced_liveness`: a paced object (3 packets, target 30 ns -> tick 10, 2
+    transfers): the poll at instant 75, after the last packet of the second transfer (instant 60, next due time 70),
+    is good: gates open, `None`, and it releases the transfer -/
+def pacedObj : AddArgs := { prio := 0, nSym := 3, maxCount := 2, carousel := none, start := none, target := some (.dur 30), allowStop := false }
+example : ∃ f, getF (run (init cfg1 [1]) [.add pacedObj, .publish 5]).objs 1 = some f ∧
+    goodNones f (run (init cfg1 [1]) [.add pacedObj, .publish 5])
+      [(5, [(1, 10)]), (5, [(1, 10)]), (15, [(1, 10)]), (25, [(1, 10)]), (40, [(1, 10)]), (50, [(1, 10)]), (60, [(1, 10)]),
+       (75, [(1, 10)])] = 1 :=
+  ⟨_, rfl, by decide⟩
 
 end Flute.Props.C12
